@@ -172,7 +172,7 @@ class Kernel(object):
     # ---- teardown ------------------------------------------------------------------------------------
     def shutdown(self):
         for p in self.pools:
-            p._state = "TERMINATE"
+            p._detach()
         for fd in self.child_fds:
             try:
                 os.close(fd)
@@ -352,6 +352,8 @@ class SimPool(object):
         self._outstanding = 0
         self._mode = kernel.mode if flavour == "process" else "inproc"
         self._pipes = {}
+        self._init = (initializer, initargs)
+        self._detached = False
         kernel.pools.append(self)
         if kernel.res is not None:
             kernel.res.count("pool.created")
@@ -367,6 +369,38 @@ class SimPool(object):
             if l > 0 and kernel.res is not None:
                 kernel.res.count("fault.late_start_worker")
             kernel.push(kernel.now + l, "ready", self, w)
+
+    # ---- surviving the simulation run that created the pool ------------------------------------------
+    def _detach(self):
+        """the run ends; the code under test may keep this pool (on an object, in a module dict) and use it again in a
+        later run: a legal design. Its simulated workers go idle; forked lock-step workers are stopped."""
+        if self._state == "RUN":
+            self._detached = True
+        self._queue = []
+        self._busy = {}
+        self._idle = []
+        self._outstanding = 0
+        self._pipes = {}
+
+    def _adopt(self):
+        k = _ACTIVE[0]
+        if k is None:
+            if self._detached:
+                raise RuntimeError("simulated pool used while no simulation is active (harness limitation)")
+            return
+        if k is self._kernel:
+            return
+        # continue to live in the current run: all workers idle, nothing queued
+        self._kernel = k
+        self._detached = False
+        k.pools.append(self)
+        self._mode = k.mode if self._flavour == "process" else "inproc"
+        if k.res is not None:
+            k.res.count("pool.reused_from_an_earlier_run")
+        if self._mode == "forked":
+            self._fork_workers(*self._init)       # limitation: the fork snapshot is refreshed at this point
+        for w in range(self._n):
+            k.push(k.now, "ready", self, w)
 
     # ---- forked lock-step workers ---------------------------------------------------------------
     def _fork_workers(self, initializer, initargs):
@@ -445,7 +479,7 @@ class SimPool(object):
             except Exception as e:
                 task.outcome = (False, e)
         if k.log is not None:
-            k.log.add("start", round(k.now, 9), w, task.index, task.n)
+            k.log.sched("start", round(k.now, 9), w, task.index, task.n)
         self._busy[w] = task
         k.push(k.now + dur, "done", self, task)
         return True
@@ -457,7 +491,7 @@ class SimPool(object):
         if self._state == "TERMINATE":
             return
         if k.log is not None:
-            k.log.add("done", round(k.now, 9), w, task.index)
+            k.log.sched("done", round(k.now, 9), w, task.index)
         self._outstanding -= 1
         task.sink._deliver(task)
         delay = 0.0
@@ -470,6 +504,7 @@ class SimPool(object):
 
     # ---- submission ------------------------------------------------------------------------------------
     def _check_running(self):
+        self._adopt()
         if self._state != "RUN":
             raise ValueError("Pool not running")
 
@@ -561,6 +596,7 @@ class SimPool(object):
 
     # ---- life cycle ------------------------------------------------------------------------------------
     def close(self):
+        self._adopt()
         if self._state == "RUN":
             self._state = "CLOSE"
 
@@ -569,6 +605,7 @@ class SimPool(object):
         self._queue = []
 
     def join(self):
+        self._adopt()
         if self._state == "RUN":
             raise ValueError("Pool is still running")
         if self._state == "CLOSE":
